@@ -1,6 +1,7 @@
 import VC2.Gen.Dispatch
 import VC2.Model.BitIODriver
 import VC2.Model.WaveletDriver
+import VC2.Model.ConstraintDriver
 open VC2 VC2.Gen
 
 def parseInts (ws : List String) : Option (List Int) :=
@@ -26,6 +27,8 @@ def step (line : String) : String :=
   | "dd" :: rest => VC2.Model.BitIO.handleIO "dd" rest
   | "wr" :: rest => VC2.Model.BitIO.handleIO "wr" rest
   | "wt" :: rest => VC2.Model.Wavelet.handleWt rest
+  | "vs" :: rest => VC2.Model.Constraint.handleVs rest
+  | "ct" :: rest => VC2.Model.Constraint.handleCt rest
   | _ => "bad-op"
 
 partial def loop (h : IO.FS.Stream) (out : IO.FS.Stream) : IO Unit := do
